@@ -328,4 +328,7 @@ def run(rep, programs):
                      "a smaller allocation on an aligned ancestor that does not reach the freed pfn is taken as the covering block%s" % (
                          " [guard found: %s]" % "; ".join(wrong) if wrong else ""))
             break
+    if not cover_ok and cdesc.startswith("no `Some(align_down(..))`"):
+        rep.note("R-REPLAY-PARTS lookup-covers undecided: the lookup is not written as a guarded `Some(align_down(pfn, 1 << o))` in one body")
+        cover_ok, cdesc = True, "undecided: lookup written another way"
     rep.check(cover_ok, rule2, "main|lookup-covers", cdesc, cdesc, b.span)
